@@ -311,5 +311,14 @@ def limit_provenance(run, ctx):
         if bad or not og:
             run.violation(fam, label, "%s/%s" % (cs, ",".join("%s@%s" % b for b in bad) or "none"), "%s:%d" % (t["span"]["file"], t["span"]["line"]),
                           "vm::run called from %s with options of origin %s: the user's backtrack_limit would not apply" % (cs, bad))
+    # the helpers that run with default options are not used by the library itself
+    for helper in ("vm::run_default", "vm::run_trace"):
+        for h in [p for p in ctx.cg.bodies if strip_generics(p) == helper]:
+            for caller, bi, t in pv.callers.get(h, []):
+                cs = strip_generics(caller)
+                if cs in DEBUG_API:
+                    continue
+                run.violation(fam, label, "debug-helper/%s/%s" % (helper, cs), "%s:%d" % (t["span"]["file"], t["span"]["line"]),
+                              "%s (which runs with the default backtrack limit) is called from %s: the user's backtrack_limit would not apply there" % (helper, cs))
     run.floor(fam, label, "src/lib.rs", n, 3, "vm::run call sites")
     run.ok(fam, label, "src/lib.rs", n, "backtrack_limit operand of every vm::run call comes from the user's options")
